@@ -248,7 +248,7 @@ func runSched(sc *schedCase) (kit.Case, error) {
 	sc.Kind = "sched"
 	tags := []string{"sched", fmt.Sprintf("readers:%d", len(sc.Readers))}
 	if hasDel {
-		tags = append(tags, "F8b:delete-in-writer-program")
+		tags = append(tags, "delete-in-writer-program")
 	}
 	if sc.Init < 0 {
 		tags = append(tags, "init:absent")
@@ -320,7 +320,7 @@ func genSchedule(r *kit.Rng, sc *schedCase) []string {
 			wPre = false
 			if wMid {
 				wMid = false
-				cached = sc.Prog[wi-1] != "del"
+				cached = true // a delete leaves a "not found" entry
 			} else {
 				wLeft--
 				wi++
